@@ -149,6 +149,16 @@ func init() {
 		}
 		return &Value{T: tBool, L: []*Term{UF(sanitize(name)+"_r00", SBool, as...)}}
 	}
+	// typeof(v): reflect.TypeOf of an interface value; mname(t, k), mtype(t, k): Name and Type of t.Method(k)
+	specFuncs["typeof"] = func(env *SpecEnv, a []*Value) *Value {
+		return &Value{T: env.e.W.reflectType(), L: []*Term{rtypeOfVal(a[0].One())}}
+	}
+	specFuncs["mname"] = func(env *SpecEnv, a []*Value) *Value {
+		return &Value{T: types.Typ[types.String], L: []*Term{UF("rt_Method_00", SStr, a[0].One(), a[1].One())}}
+	}
+	specFuncs["mtype"] = func(env *SpecEnv, a []*Value) *Value {
+		return &Value{T: env.e.W.reflectType(), L: []*Term{UF("rt_Method_02", SInt, a[0].One(), a[1].One())}}
+	}
 	// rtype("int"): the reflect.Type of a predeclared type
 	specFuncs["rtype"] = func(env *SpecEnv, a []*Value) *Value {
 		name := strLitText[a[0].One()]
